@@ -1,18 +1,49 @@
 (* C07 property theorems: statements only, each closed by [exact]. *)
 From Coq Require Import String.
 From Boltons Require Import Lib.Prelude Lib.C07_Str Spec.C07_Spec Gen.C07_Gen Model.C07_Model
-     Proofs.C07_StrLemmas Proofs.C07_Rds Proofs.C07_Resolve Proofs.C07_RfcExamples.
+     Proofs.C07_StrLemmas Proofs.C07_Rds Proofs.C07_Resolve Proofs.C07_Parse Proofs.C07_Navigate
+     Proofs.C07_Text Proofs.C07_RfcExamples.
 Open Scope N_scope.
+Open Scope list_scope.
 
-(* (T) the regular expression URL.__init__ matches with (regenerated from the
-   source on every run) is the one the model transcribes: RFC 3986 Appendix B *)
+(* ---- (T) obligations over data regenerated from the source on every run ---------------- *)
+(* the regular expression URL.__init__ matches with is the one the model
+   transcribes: RFC 3986 Appendix B *)
 Theorem C07_url_re_is_modelled : gen_url_re = modelled_url_re.
 Proof. exact eq_refl. Qed.
 Print Assumptions C07_url_re_is_modelled.
 
-(* the string-level lemma: for every rooted segment list, boltons'
-   resolve_path_parts renders to what the RFC's character-level
-   remove_dot_segments computes on the rendered path *)
+(* every character the parser splits a path / query on is quoted by to_text()
+   in that component (_PATH_DELIMS, _QUERY_DELIMS as they are now) *)
+Theorem C07_path_delims_cover : forall c, path_char c = true -> not_in [SL; QM; HASH] c = true.
+Proof. exact path_delims_cover. Qed.
+Print Assumptions C07_path_delims_cover.
+Theorem C07_query_delims_cover : forall c, query_char c = true -> not_in [HASH; AMP; EQS] c = true.
+Proof. exact query_delims_cover. Qed.
+Print Assumptions C07_query_delims_cover.
+
+(* ---- the Spec itself ----------------------------------------------------------------------- *)
+(* the fuel of the transcribed 5.2.4 loop always suffices: None is never returned *)
+Theorem C07_rds_total : forall p, remove_dot_segments p <> None.
+Proof. exact remove_dot_segments_total. Qed.
+Print Assumptions C07_rds_total.
+
+(* Appendix B parsing inverts 5.3 recomposition on well-formed components *)
+Theorem C07_parse_recompose : forall u, wf_uri u -> parse (recompose u) = u.
+Proof. exact parse_recompose. Qed.
+Print Assumptions C07_parse_recompose.
+
+(* the Spec reproduces every example of RFC 3986 5.4.1 and 5.4.2 *)
+Theorem C07_spec_rfc_examples :
+  table_ok false rfc_5_4_1 = true /\ table_ok false rfc_5_4_2 = true /\
+  table_ok true rfc_5_4_1 = true /\ table_ok true rfc_5_4_2 = true.
+Proof. exact rfc_examples_hold. Qed.
+Print Assumptions C07_spec_rfc_examples.
+
+(* ---- resolve_path_parts --------------------------------------------------------------------- *)
+(* the string-level lemma: for every rooted segment list, resolve_path_parts
+   renders to what the RFC's character-level remove_dot_segments computes on
+   the rendered path *)
 Theorem C07_rds_seg_str : forall segs, Forall noslash segs ->
   remove_dot_segments (join [SL] ([] :: segs)) = Some (join [SL] (resolve_path_parts ([] :: segs))).
 Proof. exact rds_seg_str. Qed.
@@ -21,11 +52,6 @@ Example C07_rds_seg_str_ex :
   Forall noslash (map codes ["a"; ".."; ".."; ""; "."; "b"; ".."]%string) /\
   resolve_path_parts (map codes [""; "a"; ".."; ".."; ""; "."; "b"; ".."]%string) = map codes [""; ""; ""]%string.
 Proof. split; [repeat constructor | reflexivity]. Qed.
-
-(* the fuel of the Spec's loop always suffices: None is never returned *)
-Theorem C07_rds_total : forall p, remove_dot_segments p <> None.
-Proof. exact remove_dot_segments_total. Qed.
-Print Assumptions C07_rds_total.
 
 (* no "." / ".." segment in the result, for every input *)
 Theorem C07_no_dots : forall parts, Forall (fun s => is_dot_seg s = false) (resolve_path_parts parts).
@@ -37,7 +63,7 @@ Theorem C07_rooted : forall segs, exists segs', resolve_path_parts ([] :: segs) 
 Proof. exact resolve_stays_rooted. Qed.
 Print Assumptions C07_rooted.
 
-(* normalize() is idempotent (on the path, and as a whole) *)
+(* normalize() is idempotent (on the path, and as a whole; any URL object) *)
 Theorem C07_resolve_idem : forall parts,
   resolve_path_parts (resolve_path_parts parts) = resolve_path_parts parts.
 Proof. exact resolve_idem. Qed.
@@ -47,9 +73,90 @@ Theorem C07_normalize_idem : forall u, normalize (normalize u) = normalize u.
 Proof. exact normalize_idem. Qed.
 Print Assumptions C07_normalize_idem.
 
-(* the Spec reproduces every example of RFC 3986 5.4.1 and 5.4.2 *)
-Theorem C07_spec_rfc_examples :
-  table_ok false rfc_5_4_1 = true /\ table_ok false rfc_5_4_2 = true /\
-  table_ok true rfc_5_4_1 = true /\ table_ok true rfc_5_4_2 = true.
-Proof. exact rfc_examples_hold. Qed.
-Print Assumptions C07_spec_rfc_examples.
+(* ---- navigate: refinement of RFC 3986 5.2.2 --------------------------------------------------- *)
+(* For every well-formed absolute base URL object b (any userinfo, port, rooted
+   segment list incl. dot and empty segments, query, fragment) and every
+   destination d that is a well-formed relative reference (any segment list,
+   query, fragment) or itself an absolute URL: what navigate returns renders
+   to the RFC 3986 5.2 target of the rendered inputs (dot segments removed in
+   every branch; "" = "/" under an authority).  spec_navigate is exactly the
+   predicate the correspondence run evaluates on the implementation's output. *)
+Theorem C07_navigate : forall b d, wf_base b -> wf_ref d \/ wf_base d ->
+  spec_navigate (to_text b) (to_text d) (to_text (navigate_url b d)) = true.
+Proof. exact navigate_url_refines_rfc. Qed.
+Print Assumptions C07_navigate.
+Example C07_navigate_ex :
+  wf_base ex_base /\ wf_ref ex_ref1 /\ wf_base ex_abs /\
+  to_text ex_base = codes "http://u:p@h.x:8080/b/c/../d;p/.?q=1&k#f" /\
+  to_text ex_ref1 = codes "../.././g//h/..?y=2#s" /\
+  to_text (navigate_url ex_base ex_ref1) = codes "http://u:p@h.x:8080/g//?y=2#s" /\
+  to_text (navigate_url ex_base ex_abs) = codes "https://example.com/b/?k=v".
+Proof.
+  split; [exact ex_base_wf|]. split; [exact ex_ref1_wf|]. split; [exact ex_abs_wf|].
+  vm_compute. repeat split; reflexivity.
+Qed.
+
+(* the result is again a well-formed base (so theorems chain), has no dot
+   segment and is rooted *)
+Theorem C07_navigate_wf : forall b d, wf_base b -> wf_ref d \/ wf_base d -> wf_base (navigate_url b d).
+Proof. exact navigate_url_wf. Qed.
+Print Assumptions C07_navigate_wf.
+
+Theorem C07_navigate_clean : forall b r, wf_base b -> wf_ref r ->
+  exists segs, u_path (navigate_rel b r) = [] :: segs /\
+               Forall (fun s => is_dot_seg s = false) (u_path (navigate_rel b r)).
+Proof. exact navigate_clean. Qed.
+Print Assumptions C07_navigate_clean.
+
+(* chained navigation equals resolving step by step *)
+Theorem C07_chain : forall b r1 r2, wf_base b -> wf_ref r1 -> wf_ref r2 ->
+  spec_chain (to_text b) (to_text r1) (to_text r2)
+             (to_text (navigate_rel (navigate_rel b r1) r2)) = true.
+Proof. exact navigate_chain. Qed.
+Print Assumptions C07_chain.
+Example C07_chain_ex :
+  wf_base ex_base /\ wf_ref ex_ref1 /\ wf_ref ex_ref2 /\
+  to_text (navigate_rel (navigate_rel ex_base ex_ref1) ex_ref2) = codes "http://u:p@h.x:8080/z/".
+Proof.
+  split; [exact ex_base_wf|]. split; [exact ex_ref1_wf|]. split; [exact ex_ref2_wf|].
+  vm_compute. reflexivity.
+Qed.
+
+(* ---- navigate called with a reference TEXT (str or URL object built from it) ----------------
+   FULL STATEMENT (what the property says; it is FALSE for the model and the
+   code, see C07_navigate_text_refuted):
+     forall b t as_url n, wf_base b -> url_of_text t = Some d -> wf_ref d \/ wf_base d ->
+       navigate b t as_url = Some n -> spec_navigate (to_text b) t (to_text n) = true.
+   PROVED: the same under the hypothesis that t is in the URL type's normal form
+   (to_text (URL(t)) = t).  That hypothesis excludes exactly the texts the URL
+   type cannot represent: a present-but-empty query or fragment ("?", "?&", "#":
+   the recorded finding, C07_normal_form_excludes_marker) and non-canonical
+   spellings that are C06's round-trip business ("k=", "x&&y", ":80").          *)
+Theorem C07_navigate_text_partial : forall b t d as_url n,
+  wf_base b -> url_of_text t = Some d -> to_text d = t -> wf_ref d \/ wf_base d ->
+  navigate b t as_url = Some n ->
+  spec_navigate (to_text b) t (to_text n) = true /\ wf_base n.
+Proof. exact navigate_text_refines_rfc. Qed.
+Print Assumptions C07_navigate_text_partial.
+Example C07_navigate_text_partial_ex :
+  wf_base ex_base /\ url_of_text ex_ref1_t = Some ex_ref1 /\ to_text ex_ref1 = ex_ref1_t /\ wf_ref ex_ref1.
+Proof.
+  split; [exact ex_base_wf|]. split; [vm_compute; reflexivity|]. split; [vm_compute; reflexivity|].
+  exact ex_ref1_wf.
+Qed.
+
+(* the guard of the recorded finding lies outside the proved part *)
+Theorem C07_normal_form_excludes_marker : forall r, wf_ref r -> ref_has_empty_marker (to_text r) = false.
+Proof. exact normal_form_excludes_marker. Qed.
+Print Assumptions C07_normal_form_excludes_marker.
+
+(* the unguarded statement is refuted by the witnesses of the known finding
+   (corpus/C07/b13_empty_query.json, b13_empty_fragment.json) *)
+Theorem C07_navigate_text_refuted :
+  wf_base rf_base /\
+  (exists t n, ref_has_empty_marker t = true /\ navigate rf_base t false = Some n /\
+               spec_navigate (to_text rf_base) t (to_text n) = false) /\
+  (exists t n, ref_has_empty_marker t = true /\ navigate rf_base t true = Some n /\
+               spec_navigate (to_text rf_base) t (to_text n) = false).
+Proof. exact navigate_empty_marker_refuted. Qed.
+Print Assumptions C07_navigate_text_refuted.
